@@ -1,5 +1,6 @@
 import TinsModel.Dns.Refine
 import TinsModel.Dns.Compose
+import TinsModel.Dns.Update
 /-
   Property C10 — DNS messages stay coherent under parsing, editing and name compression.
   Only the property theorems live here; the model is `TinsModel/Dns/Model.lean`, the specification
@@ -212,12 +213,12 @@ theorem observe_mkMsg (hdr : Bytes) {S : Sections} (hl : S.Legal) : observe (mkM
 theorem legal_foldl : ∀ (es : List Edit) (S : Sections), S.Legal → (∀ e ∈ es, e.legal = true) →
     (es.foldl specEdit S).Legal
   | [], _, hS, _ => hS
-  | e :: es, S, hS, he =>
+  | e :: es, _, hS, he =>
     legal_foldl es _ (legal_specEdit hS (he e List.mem_cons_self)) (fun x hx => he x (List.mem_cons_of_mem _ hx))
 
 theorem total_foldl : ∀ (es : List Edit) (S : Sections), total (es.foldl specEdit S) = total S + es.length
   | [], _ => rfl
-  | e :: es, S => by rw [List.foldl_cons, total_foldl es, total_specEdit, List.length_cons]; omega
+  | e :: es, _ => by rw [List.foldl_cons, total_foldl es, total_specEdit, List.length_cons]; omega
 
 /-- **sections_refine + counts_agree, fresh object**: after any history of legal insertions into a fresh `DNS`, the
     four getters return exactly the inserted records, in order, with fully expanded names and typed data, and the
@@ -281,5 +282,100 @@ theorem compose_sound (recs : Bytes) (p : Nat) (r : Bytes × Nat)
     (h : composeName recs composeFuel p [] 0 none = .ok r) : ∃ n j, Resolves recs p n j ∧ j ≤ 31 := by
   obtain ⟨n, j, hr, _, hj⟩ := composeName_sound recs composeFuel p [] 0 none r (by omega) h
   exact ⟨n, j, hr, by omega⟩
+
+/-! ## 5. Compression pointers under insertion (any stored bytes, compressed or not) -/
+
+/-- **the insertion is a shift**: on every reachable object, a successful `add_answer` / `add_authority` /
+    `add_additional` (whatever record, whatever the stored bytes) produces records that are the old records with `k`
+    bytes spliced in at the section boundary, in which a set `R` of two-octet pointer fields — all at or after the
+    insertion point, all with a target at or after it — now designate their old target `+ k`, and every other byte
+    is where the splice moved it.  For `add_answer` the walk over the authority records has to end at or before
+    `additional_idx_` (otherwise the two walks overlap; true for every message whose header counts match its
+    sections). -/
+theorem insertion_is_shift {m m' : Msg} {sec : Section} {r : NewRec} (hm : Reachable m) (h : addRecord m sec r = .ok m')
+    (hdisj : sec = .answer → ∀ off r1, updateLoop m.ui off m.au m.recs m.ui = .ok r1 → r1.2 ≤ m.di) :
+    ∃ k R, m'.recs.length = m.recs.length + k ∧ Shifted m.recs m'.recs (insPoint m sec) k R ∧
+      ∀ x, R x → insPoint m sec ≤ x :=
+  addRecord_shifted (reachable_inv hm) h hdisj
+
+/-- **pointers_preserved, proved part**: after such an insertion every name that resolved at offset `p` (RFC 1035
+    §4.1.4) resolves to the same labels with the same number of jumps at the offset the splice moved `p` to —
+    provided every pointer on its resolution path whose target moves is one of the re-targeted ones (`R`), untouched
+    pointers designate names before the insertion point, and no label straddles the insertion point
+    (`ResolvesVia`: the pointer-target invariant of a well-formed compressed message, here a hypothesis). -/
+theorem pointers_preserved_partial {m m' : Msg} {sec : Section} {r : NewRec} (hm : Reachable m)
+    (h : addRecord m sec r = .ok m')
+    (hdisj : sec = .answer → ∀ off r1, updateLoop m.ui off m.au m.recs m.ui = .ok r1 → r1.2 ≤ m.di) :
+    ∃ k R, m'.recs.length = m.recs.length + k ∧ (∀ x, R x → insPoint m sec ≤ x) ∧
+      ∀ p n j, ResolvesVia m.recs R (insPoint m sec) p n j → Resolves m'.recs (shift (insPoint m sec) k p) n j := by
+  obtain ⟨k, R, hlen, hs, hR⟩ := insertion_is_shift hm h hdisj
+  exact ⟨k, R, hlen, hR, fun p n j hv => resolves_shifted hs hv⟩
+
+/-- the transport lemma on its own: any `Shifted` image preserves RFC 1035 resolution along re-targeted paths -/
+theorem resolution_preserved_by_shift {buf buf' : Bytes} {t k : Nat} {R : Nat → Prop} (hs : Shifted buf buf' t k R)
+    {p : Nat} {n : Name} {j : Nat} (h : ResolvesVia buf R t p n j) : Resolves buf' (shift t k p) n j :=
+  resolves_shifted hs h
+
+/-- non-vacuity: a compressed response (question `ab.c`, authority `NS` whose owner is a pointer to the question
+    name), `add_answer` of an A record: the authority owner still resolves to `ab.c` at its moved position. -/
+def ptrExample : Bytes :=
+  [0, 7, 0x81, 0x80, 0, 1, 0, 0, 0, 1, 0, 0,
+   2, 0x61, 0x62, 1, 0x63, 0, 0, 1, 0, 1,                                   -- ab.c A IN
+   0xc0, 0x0c, 0, 2, 0, 1, 0, 0, 0, 9, 0, 5, 2, 0x6e, 0x73, 0xc0, 0x0c]     -- (ptr) NS IN 9 ns.(ptr)
+
+example : (parse ptrExample >>= fun m0 =>
+    addRecord m0 .answer ⟨[0x61, 0x62, 0x2e, 0x63], 1, 1, 5, 0, [], some [1, 2, 3, 4]⟩ >>= observe) =
+    .ok ⟨[⟨[0x61, 0x62, 0x2e, 0x63], 1, 1⟩],
+         [⟨[0x61, 0x62, 0x2e, 0x63], 1, 1, 5, 0, .str [0x31, 0x2e, 0x32, 0x2e, 0x33, 0x2e, 0x34]⟩],
+         [⟨[0x61, 0x62, 0x2e, 0x63], 2, 1, 9, 0, .str [0x6e, 0x73, 0x2e, 0x61, 0x62, 0x2e, 0x63]⟩], [],
+         (1, 1, 1, 0)⟩ := by decide +kernel
+
+/-! ## 6. Compressed initial messages: full statement (not proved), what is proved, what ties it to the code -/
+
+/-- the compressed reference encoding resolves every name with at most 31 jumps when no name has more than 31
+    labels (a pointer always designates a suffix that starts with a literal label) -/
+def shortNames (S : Sections) : Bool :=
+  S.qs.all (fun q => q.name.length ≤ 31) &&
+  (S.an ++ S.au ++ S.ad).all (fun r => r.owner.length ≤ 31 &&
+    match r.data with
+    | .name n => n.length ≤ 31
+    | .mx _ n => n.length ≤ 31
+    | .soa a b _ => a.length ≤ 31 && b.length ≤ 31
+    | _ => true)
+
+/-- FULL STATEMENT for compressed initial messages (`sections_refine` + `counts_agree` + `pointers_preserved` at the
+    level of the getters): parse the compressed reference encoding of any legal content, apply any legal edit history,
+    observe exactly the edited content.  (14-bit pointers: the message has to stay below 16 KiB.)
+    NOT PROVED. Proved instead: the same statement for the uncompressed encoder (`sections_refine_parsed`), memory
+    safety on every input (`getters_noFault_partial`, `edit_noFault_partial`), `insertion_is_shift` and
+    `pointers_preserved_partial` for any stored bytes.  Missing: the invariant that in `refCompress` output every
+    pointer on a resolution path is the terminal pointer of a name site that `update_records` visits (so that
+    `ResolvesVia` holds for every name site), and the getter walk over compressed sites.  Checked on every run by the
+    correspondence + oracle on compressed reference encodings (Python encoder) and on the instances below. -/
+def sections_refine_compressed : Prop :=
+  ∀ (hdr : Bytes) (S0 : Sections) (es : List Edit), hdr.length = 4 → S0.Legal → shortNames S0 = true →
+    (∀ e ∈ es, e.legal = true) → total S0 + es.length < 65536 →
+    (refEncode hdr (es.foldl specEdit S0)).length < 16384 →
+    ∃ m0 m, parse (refCompress hdr S0) = .ok m0 ∧ runEdits m0 es = .ok m ∧
+      observe m = .ok (expected (es.foldl specEdit S0))
+
+/-- an instance (evaluated by the kernel): question + compressed NS/SOA authority + MX additional, then an answer, a
+    question and an authority record are inserted -/
+def exS0 : Sections :=
+  { qs := [⟨[[0x61, 0x62], [0x63]], 1, 1⟩],
+    au := [⟨[[0x61, 0x62], [0x63]], 2, 1, 9, .name [[0x6e, 0x73], [0x61, 0x62], [0x63]]⟩,
+           ⟨[[0x61, 0x62], [0x63]], 6, 1, 9, .soa [[0x6e, 0x73], [0x61, 0x62], [0x63]] [[0x68], [0x6e, 0x73], [0x61, 0x62], [0x63]]
+              [0, 0, 0, 1, 0, 0, 0, 2, 0, 0, 0, 3, 0, 0, 0, 4, 0, 0, 0, 5]⟩],
+    ad := [⟨[[0x61, 0x62], [0x63]], 15, 1, 9, .mx 10 [[0x6d], [0x61, 0x62], [0x63]]⟩] }
+
+def exEdits : List Edit :=
+  [.record .answer ⟨[[0x61, 0x62], [0x63]], 1, 1, 5, .a [1, 2, 3, 4]⟩ [],
+   .query ⟨[[0x7a], [0x63]], 28, 1⟩,
+   .record .authority ⟨[[0x63]], 2, 1, 7, .name [[0x78], [0x63]]⟩ []]
+
+example : (refCompress [0, 7, 0x81, 0x80] exS0).length < (refEncode [0, 7, 0x81, 0x80] exS0).length := by decide +kernel
+
+example : (parse (refCompress [0, 7, 0x81, 0x80] exS0) >>= fun m0 => runEdits m0 exEdits >>= observe) =
+    .ok (expected (exEdits.foldl specEdit exS0)) := by decide +kernel
 
 end Tins.Props.C10
